@@ -604,7 +604,7 @@ HEAD_OPS = list(UNARY) + ["mul", "mul", "add", "sub", "sum", "mean", "sumall", "
 
 @st.composite
 def mtl_programs(draw, max_shared=3, max_features=3, max_tasks=4, max_task_leaves=3, dtypes=("float64", "float32"),
-                 trunk_ops=DEFAULT_OPS, allow_around=True, max_trunk_nodes=5, max_head_nodes=3):
+                 trunk_ops=DEFAULT_OPS, allow_around=True, max_trunk_nodes=5, max_head_nodes=3, sibling=False):
     """Trunk/heads program. Returns the IR plus:
       features: refs of 1..k mutually independent trunk nodes; losses: one scalar ref per task;
       task_leaves: per task, the leaves it *lists* (may include leaves it does not use, leaves shared between tasks);
@@ -643,8 +643,24 @@ def mtl_programs(draw, max_shared=3, max_features=3, max_tasks=4, max_task_leave
         feats.append(e)
         if len(feats) == want:
             break
+    siblings = []
+    if sibling:
+        # directed shape: the features are some results of one multi-output node, the heads may use the OTHER results
+        # (they reach the shared leaves around the features, through a sibling edge of the same autograd node)
+        x = next((e for e in reversed(trunk) if e["rg"] and not e["leaf"] and any(d >= 2 for d in e["shape"])), None)
+        if x is None:
+            x0 = next(e for e in trunk if e["rg"])
+            x = b.add_node({"op": "stack", "dim": 0}, [x0, x0])[0]
+            trunk.append(x)
+        d = next(i for i, dd in enumerate(x["shape"]) if dd >= 2)
+        outs = b.add_node({"op": "unbind", "dim": d}, [x])
+        trunk.extend(outs)
+        k = int(rng.integers(1, len(outs)))
+        pick_idx = sorted(rng.permutation(len(outs))[:k].tolist())
+        feats = [outs[i] for i in pick_idx]
+        siblings = [o for i, o in enumerate(outs) if i not in pick_idx]
     n_tasks = min(max_tasks, [1, 2, 2, 3, 3, 4][int(rng.integers(0, 6))])
-    around = bool(allow_around and rng.integers(0, 5) == 0)
+    around = bool(allow_around and (rng.integers(0, 5) == 0 or (sibling and rng.integers(0, 3) > 0)))
     common_leaves = []
     if n_tasks >= 2 and rng.integers(0, 4) == 0:
         common_leaves.append(b.add_leaf(draw(shapes(max_rank=2, max_numel=6)), True))
@@ -654,7 +670,7 @@ def mtl_programs(draw, max_shared=3, max_features=3, max_tasks=4, max_task_leave
         listed = own + [c for c in common_leaves if rng.integers(0, 3) > 0]
         allowed = list(feats) + listed
         if around:
-            allowed += [e for e in trunk if e["rg"] and not any(e is f for f in feats)][:3]
+            allowed += siblings + [e for e in trunk if e["rg"] and not any(e is f for f in feats)][:3]
         ok = lambda e, allowed=allowed: any(e is a for a in allowed)  # noqa: E731
         b.ops = list(HEAD_OPS)
         head = []
